@@ -122,7 +122,9 @@ def run(ctx):
     im = impl()
     rnd = ctx.rnd
     idx = 0
-    seeds = list(corpus.SEEDS) + list(corpus.DOCUMENTED.values()) + list(corpus.test_programs().values())
+    seeds = list(corpus.SEEDS) + list(corpus.DOCUMENTED.values())
+    if not ctx.quick():
+        seeds += list(corpus.test_programs().values())
     kind_names = list(T.KINDS)
     for s in seeds:
         try:
